@@ -251,8 +251,41 @@ def relevant_oracle(o, tags):
     if o == "ok":
         return None
     msgs = [m.strip() for m in o[len("fail:"):].split(";") if m.strip()]
-    rel = [m for m in msgs if any(m.startswith(t) for t in tags) or m == "panic" and "panic" in tags]
+    rel = [m for m in msgs if any(m.startswith(t) for t in tags) or (m == "panic" or m.startswith("crash:")) and "panic" in tags]
     return "; ".join(rel) if rel else None
+
+
+def crashed_shard(ctx, run, length, job, sig):
+    """re-run a shard case by case; a case whose process dies again becomes a synthetic failing case"""
+    first, n, ops_p, impl_p, model_p = job
+    ops_all, impl_all, model_all = [], [], []
+    for c in range(first, first + n):
+        o, i, m = (f"{x}.case{c}" for x in (ops_p, impl_p, model_p))
+        args = ["gen", "--seed", str(ctx.seed), "--cases", "1", "--len", str(length), "--first-case", str(c),
+                "--ops", o, "--out", i, "--tmp", os.path.join(CACHE, "tmp")] + run.flags
+        rc, err = run_harness(run.engine, args)
+        if rc == 0:
+            if run.driver:
+                rc2, err2 = run_driver(run.driver_engine, o, m)
+                if rc2 != 0:
+                    return ("driver", rc2, err2)
+            ops_all += open(o).read().splitlines()
+            impl_all += open(i).read().splitlines()
+            model_all += open(m).read().splitlines() if run.driver else []
+        elif rc < 0:
+            head = f"case {c} (process killed by signal {-rc})"
+            cmd = "harness " + run.engine + " " + " ".join(args[:10] + run.flags)
+            line = f"crashed | O fail:crash: the process running this case against the real crates was killed by signal {-rc} (memory fault or abort inside the library) - rerun with: {cmd}"
+            ops_all += [head, f"crashcase seed={ctx.seed} case={c} len={length}"]
+            impl_all += [head, line]
+            if run.driver:
+                model_all += [head, line]
+        else:
+            return ("harness", rc, err)
+    for path, lines in ((ops_p, ops_all), (impl_p, impl_all)) + (((model_p, model_all),) if run.driver else ()):
+        with open(path, "w") as f:
+            f.write("\n".join(lines) + "\n")
+    return None
 
 
 def exec_stream(ctx, run, tier):
@@ -278,6 +311,10 @@ def exec_stream(ctx, run, tier):
             ["gen", "--seed", str(ctx.seed), "--cases", str(n), "--len", str(length), "--first-case", str(first),
              "--ops", ops_p, "--out", impl_p, "--tmp", os.path.join(CACHE, "tmp")] + run.flags,
         )
+        if rc < 0:
+            # the harness process was killed by a signal while it ran the real crates (memory fault, abort): that is an
+            # observation about the implementation, not a machinery error — find the case(s) and report them
+            return crashed_shard(ctx, run, length, job, -rc)
         if rc != 0:
             return ("harness", rc, err)
         if run.driver:
